@@ -682,6 +682,10 @@ func (r *Renderer) refReal(t *Term) string {
 		if t.Sort.Kind == KInt {
 			fmt.Fprintf(&r.buf, "(assert %s)\n", r.rangeCond(n, t.Sort))
 		}
+		if t.Sort.Kind == KFloat {
+			// an input double is representable: rnd(x) = x
+			r.addMember(famMember{e: n, v: n, rounded: false, linear: true})
+		}
 		return n
 	}
 	a := r.args(t)
